@@ -1,3 +1,4 @@
+import FluentProofs.ConstTieResMgr
 import FluentProofs.ResMgr
 /-!
 # C19 — ResourceManager: files loaded once, bundles per locale, I/O faults reported
